@@ -16,6 +16,7 @@ import numpy
 
 from common import Check, Driver, Infra, VERIF, sarpy_guard
 import segtree
+import segmodel
 import c01
 
 REQUIRED = ['scatter_length', 'writes_commute_of_disjoint', 'partition_history', 'history_eq_whole_write',
@@ -317,7 +318,7 @@ def run(tier):
     rng = chk.rng
     import gen_slices
     gen_info = gen_slices.generate(os.path.join(VERIF, 'lean', 'SarpyModel', 'Gen', 'Slices.lean'))
-    broken = chk.prove(['SarpyModel.Props.C07', 'SarpyModel.Props.C01', 'SarpyModel.Drivers'], 'SarpyModel.Props.C07',
+    broken = chk.prove(['SarpyModel.Props.C07', 'SarpyModel.Props.C01', segmodel.WSEG_MODULE, 'SarpyModel.Drivers'], 'SarpyModel.Props.C07',
                        'Sarpy.Props.C07', REQUIRED, gen_info)
     # the kernel bridges live in C01's namespace: they are obligations of this property too
     if not broken:
@@ -332,6 +333,7 @@ def run(tier):
                 broken.append(nm + ' uses non-standard axioms')
         chk.coverage['obligations'] += len(need)
         chk.coverage['discharged'] += len([r for r in need if 'Sarpy.Props.C01.' + r in k])
+        segmodel.obligations_writes(chk, broken)     # Props/C07Seg.lean: where the segment classes store a chunk
 
     fails = []
     stats = {}
@@ -366,7 +368,11 @@ def run(tier):
     try:
         drv = Driver()
         idx = [drv.ask(j[1]) for j in drv_jobs]
+        seg_plan = segmodel.plan_writes(drv, rng, tier, rand_wtree)
         ans = drv.run()
+        seg_dis, seg_stats = segmodel.check_writes(seg_plan, ans)
+        disagreements += seg_dis
+        chk.coverage['segment_model'] = seg_stats
         for (case, line, flat, flag, nassign), i in zip(drv_jobs, idx):
             store, _, tail = ans[i].partition(' | ')
             cells = store.split(',') if store else []
@@ -380,7 +386,7 @@ def run(tier):
         broken.append('model driver does not build/run: ' + str(e)[:300])
 
     chk.coverage.update({
-        'evaluations': stats.get('writes', 0) + len(drv_jobs),
+        'evaluations': stats.get('writes', 0) + len(drv_jobs) + chk.coverage.get('segment_model', {}).get('writes', 0),
         'distinct_nontrivial': len(seen),
         'rule': 'random writable segment trees (array/memmap leaves, identity and complex IQ/QI formats, subset incl. padded blocks, '
                 'reorientation, band and block aggregates) x random partitions of the formatted index set into rectangular chunks '
@@ -395,7 +401,10 @@ def run(tier):
     chk.assumptions += [
         'each real write is observed from outside as the set of raw leaf positions it changed (sentinel -1 / distinct sample values)',
         'translator py2lean for the shared slice kernels (checked by C01\'s three-way differential)',
-        'the map from a formatted chunk to raw positions inside the segment classes is not a Lean theorem: it is tied by the numpy provenance oracle',
+        'the map from a formatted chunk to raw positions inside the segment classes: theorem write_routes (Props/C07Seg.lean) is about '
+        'Spec.Segment, a hand-written mirror of data_segment.py / format_function.py, tied to the code by the write correspondence of this run '
+        '(array / memmap leaves, reverse + transpose, ReorientationSegment, subsets with and without squeezed axes, band aggregates, tilings); '
+        'writes through a complex format function are tied by the numpy provenance oracle only',
         'numpy.memmap flushing and the OS page cache are outside the model',
     ]
     all_fail = koracle + fails
